@@ -6,6 +6,7 @@ package main
 import (
 	"go/token"
 	"go/types"
+	"sort"
 	"strings"
 
 	"golang.org/x/tools/go/ssa"
@@ -67,10 +68,119 @@ func (c *Ctx) skelD(v ssa.Value, e *env, depth int) []Seg {
 			}
 		}
 	}
+	if call, ok := rv.(*ssa.Call); ok {
+		// x.String() of a fmt.Stringer is what %s prints for x
+		if g := call.Call.StaticCallee(); g != nil && g.Name() == "String" && g.Signature.Recv() != nil && len(call.Call.Args) == 1 &&
+			g.Signature.Params().Len() == 0 && g.Signature.Results().Len() == 1 && isStringType(g.Signature.Results().At(0).Type()) && inModule(g) {
+			return []Seg{{Hole: c.key(call.Call.Args[0], e), Verb: "%s", Val: call.Call.Args[0]}}
+		}
+		if calleeFullName(call) == "(*strings.Builder).String" && len(call.Call.Args) == 1 {
+			if segs, ok := c.builderSkeleton(call, e, depth); ok {
+				return segs
+			}
+		}
+	}
 	if inner, ie, desc, ok := c.rewriteOfE(rv, e); ok {
 		return []Seg{{Hole: desc + "(" + c.key(inner, ie) + ")", Val: rv}}
 	}
 	return []Seg{{Hole: c.key(rv, e), Val: rv}}
+}
+
+// builderSkeleton: the text of sb.String() for a strings.Builder that is a local of the function, written
+// only by WriteString / WriteByte / WriteRune calls that all dominate the String call and sit outside loops:
+// the concatenation of what was written, in order.
+func (c *Ctx) builderSkeleton(str *ssa.Call, e *env, depth int) ([]Seg, bool) {
+	a, ok := str.Call.Args[0].(*ssa.Alloc)
+	if !ok || a.Referrers() == nil {
+		return nil, false
+	}
+	type wr struct {
+		call *ssa.Call
+		name string
+	}
+	var writes []wr
+	for _, ref := range *a.Referrers() {
+		switch u := ref.(type) {
+		case *ssa.DebugRef:
+		case *ssa.Call:
+			name := calleeFullName(u)
+			if !strings.HasPrefix(name, "(*strings.Builder).") || len(u.Call.Args) == 0 || u.Call.Args[0] != ssa.Value(a) {
+				return nil, false
+			}
+			switch strings.TrimPrefix(name, "(*strings.Builder).") {
+			case "String", "Len", "Cap", "Grow":
+			case "WriteString", "WriteByte", "WriteRune", "Reset":
+				if u != str && !(u.Block() == str.Block() || u.Block().Dominates(str.Block())) {
+					return nil, false
+				}
+				if inCycleBlock(u.Block()) {
+					return nil, false
+				}
+				writes = append(writes, wr{u, strings.TrimPrefix(name, "(*strings.Builder).")})
+			default:
+				return nil, false
+			}
+		default:
+			return nil, false
+		}
+	}
+	idx := func(in ssa.Instruction) int {
+		for i, x := range in.Block().Instrs {
+			if x == in {
+				return i
+			}
+		}
+		return -1
+	}
+	before := func(x, y ssa.Instruction) bool {
+		if x.Block() == y.Block() {
+			return idx(x) < idx(y)
+		}
+		return x.Block().Dominates(y.Block())
+	}
+	sort.SliceStable(writes, func(i, j int) bool { return before(writes[i].call, writes[j].call) })
+	var out []Seg
+	for _, w := range writes {
+		if !before(w.call, str) {
+			return nil, false
+		}
+		switch w.name {
+		case "Reset":
+			out = nil
+		case "WriteString":
+			out = append(out, c.skelD(w.call.Call.Args[1], e, depth+1)...)
+		case "WriteByte", "WriteRune":
+			if k, ok := c.resolve(w.call.Call.Args[1], e).(*ssa.Const); ok && k.Value != nil {
+				if n, ok := constIntVal(k); ok {
+					out = append(out, Seg{Lit: string(rune(n))})
+					continue
+				}
+			}
+			out = append(out, Seg{Hole: c.key(w.call.Call.Args[1], e), Verb: "%c", Val: w.call.Call.Args[1]})
+		}
+	}
+	return out, true
+}
+
+// inCycleBlock: the block can reach itself (it is inside a loop).
+func inCycleBlock(b *ssa.BasicBlock) bool {
+	seen := map[*ssa.BasicBlock]bool{}
+	var walk func(x *ssa.BasicBlock) bool
+	walk = func(x *ssa.BasicBlock) bool {
+		for _, s := range x.Succs {
+			if s == b {
+				return true
+			}
+			if !seen[s] {
+				seen[s] = true
+				if walk(s) {
+					return true
+				}
+			}
+		}
+		return false
+	}
+	return walk(b)
 }
 
 // rewriteOf recognises a character-for-character rewrite of a string: a chain of
@@ -146,6 +256,9 @@ func (c *Ctx) rewriteOfE(v ssa.Value, e *env) (inner ssa.Value, ie *env, desc st
 // replacerPairs: v is a load of a package-level *strings.Replacer initialised once in init with
 // strings.NewReplacer(constant pairs…).
 func (c *Ctx) replacerPairs(v ssa.Value) [][2]string {
+	if call, ok := v.(*ssa.Call); ok && calleeFullName(call) == "strings.NewReplacer" {
+		return c.replacerLiteral(call)
+	}
 	ld, ok := v.(*ssa.UnOp)
 	if !ok {
 		return nil
@@ -180,6 +293,11 @@ func (c *Ctx) replacerPairs(v ssa.Value) [][2]string {
 	if n != 1 || call == nil || calleeFullName(call) != "strings.NewReplacer" {
 		return nil
 	}
+	return c.replacerLiteral(call)
+}
+
+// replacerLiteral: the (old, new) pairs of a strings.NewReplacer call with constant arguments, in order.
+func (c *Ctx) replacerLiteral(call *ssa.Call) [][2]string {
 	lit, ok := c.sliceLiteral(call.Call.Args[0], nil)
 	if !ok || len(lit)%2 != 0 {
 		return nil
